@@ -23,6 +23,21 @@ package dawn
 // NFC/NFD/invalid UTF-8, number-like).  The callable itself is a Go builtin, a Starlark def, a lambda or
 // a def WITHOUT return (implicit None); it fails by returning an error, by fail(), or by returning
 // (nil, nil).  Extra columns of the S line: quoted keys, readable plan, kinds, key style, shapes.
+//
+// Callers in context (nested family, scenario ids >= $VERIF_N).  The property quantifies over EVERY caller
+// of a cache's once; a caller need not be a fresh thread at top level.  In this family a scenario has 2-3
+// caches that use the SAME key strings, and a call's callable may itself call once on a cache of higher
+// rank with the thread it was given (a memoised function that uses another memoised function), so a
+// caller of cache i may be inside the callable of cache j<i, holding j's lock and carrying whatever the
+// outer once left on its thread, while other goroutines call cache i directly.  A callable either returns
+// its planned value or passes on what its last nested call returned (value or error).  A gated callable
+// waits (bounded) until another goroutine has a call on the same cache and key in flight, so the
+// interleaving "a second caller arrives while the first one's callable runs" is forced, not hoped for.
+// Each cache's events are projected out and written as an ordinary S line (id 500000+4*j+cache, mode
+// nested-*), with the plan derived from the calls that were actually made; the per-cache oracles and the
+// Coq replay are those of the single-cache family (justified by Cache/Nested.v: the projection of a run
+// of the multi-cache system onto one cache is a run of the single-cache model).  Ranks make the lock
+// order acyclic, so the unchanged code cannot deadlock here; same-cache re-entrancy stays excluded.
 
 import (
 	"context"
@@ -253,6 +268,9 @@ type c20Event struct {
 	g    int
 	key  int
 	val  int64 // 'e': value or -1 (fail); 'r': value, -1 (error) or -2 (neither an int nor an error)
+
+	cache int       // nested family only: which cache
+	call  *c20NCall // nested family only: the planned call this event belongs to
 }
 
 type c20Scenario struct {
@@ -263,6 +281,9 @@ type c20Scenario struct {
 	keys    []string // the key strings, by key number
 	plan    [][]c20Call
 	jitter  [][]int // per goroutine per call: 0 none, 1 gosched, 2.. sleep microseconds
+
+	mode  string // overrides "direct"/"builtin" in the S line (projections of the nested family)
+	extra string // extra last column of the S line (the whole nested scenario, readable)
 }
 
 func c20Env(name string, def int) int {
@@ -459,13 +480,13 @@ func c20RunScenario(sc *c20Scenario) (hist []c20Event, final map[int]int64, pani
 				jpre, jin := sc.jitter[g][2*i], sc.jitter[g][2*i+1]
 				var callable starlark.Callable = starlark.NewBuiltin("h", func(_ *starlark.Thread, _ *starlark.Builtin, _ starlark.Tuple, _ []starlark.Tuple) (starlark.Value, error) {
 					atomic.AddInt64(&invocations[call.key], 1)
-					logEv(c20Event{'b', g, call.key, 0})
+					logEv(c20Event{kind: 'b', g: g, key: call.key, val: 0})
 					c20Delay(jin)
 					var v starlark.Value
 					if call.val >= 0 {
 						v = c20Make(call.val, &reg)
 					}
-					logEv(c20Event{'e', g, call.key, call.val})
+					logEv(c20Event{kind: 'e', g: g, key: call.key, val: call.val})
 					switch {
 					case call.val >= 0:
 						return v, nil
@@ -484,7 +505,7 @@ func c20RunScenario(sc *c20Scenario) (hist []c20Event, final map[int]int64, pani
 					callable = globals["f"].(starlark.Callable)
 				}
 				c20Delay(jpre)
-				logEv(c20Event{'c', g, call.key, 0})
+				logEv(c20Event{kind: 'c', g: g, key: call.key, val: 0})
 				var v starlark.Value
 				var err error
 				if sc.builtin {
@@ -492,7 +513,7 @@ func c20RunScenario(sc *c20Scenario) (hist []c20Event, final map[int]int64, pani
 				} else {
 					v, err = c.once(thread, nil, sc.keys[call.key], callable)
 				}
-				logEv(c20Event{'r', g, call.key, c20Val(v, err, &reg)})
+				logEv(c20Event{kind: 'r', g: g, key: call.key, val: c20Val(v, err, &reg)})
 			}
 		}(g)
 	}
@@ -630,6 +651,9 @@ func c20Render(sc *c20Scenario, hist []c20Event, final map[int]int64) string {
 	if sc.builtin {
 		mode = "builtin"
 	}
+	if sc.mode != "" {
+		mode = sc.mode
+	}
 	// readable description of the input (for the replay file) and the classes it belongs to (for the distribution)
 	var keys, rplan, kinds, shapes []string
 	for _, k := range sc.keys {
@@ -655,7 +679,7 @@ func c20Render(sc *c20Scenario, hist []c20Event, final map[int]int64) string {
 	return strings.Join([]string{"S", strconv.Itoa(sc.id), mode, strconv.Itoa(len(sc.plan)), strconv.Itoa(sc.nkeys),
 		strings.Join(plan, "|"), strings.Join(hs, " "), strings.Join(fs, ","),
 		strings.Join(keys, " "), strings.Join(rplan, " | "), strings.Join(kinds, ","), c20KeyStyles[sc.style],
-		strings.Join(shapes, ",")}, "\t")
+		strings.Join(shapes, ","), sc.extra}, "\t")
 }
 
 func c20Child(t *testing.T, outPath string) {
@@ -667,7 +691,28 @@ func c20Child(t *testing.T, outPath string) {
 	}
 	defer f.Close()
 	line := func(s string) { f.WriteString(s + "\n") }
+	nBase := c20Env("VERIF_N", 400)
 	for id := from; id < to; id++ {
+		if id >= nBase {
+			// nested family (zz_verif_c20_nested_test.go)
+			ns := c20GenNested(seed, id-nBase)
+			line("BEGIN\t" + strconv.Itoa(id))
+			line("N\t" + strconv.Itoa(id) + "\t" + c20DescribeNested(ns))
+			done := make(chan c20NestedResult, 1)
+			go func() { done <- c20RunNested(ns) }()
+			select {
+			case r := <-done:
+				for _, l := range c20NestedLines(ns, id, r) {
+					line(l)
+				}
+				line("END\t" + strconv.Itoa(id))
+			case <-time.After(20 * time.Second):
+				line("ORACLE\thang\t" + strconv.Itoa(id))
+				f.Close()
+				os.Exit(3)
+			}
+			continue
+		}
 		sc := c20Gen(seed, id)
 		line("BEGIN\t" + strconv.Itoa(id))
 		type res struct {
@@ -709,6 +754,7 @@ func TestVerifC20(t *testing.T) {
 		return
 	}
 	n := c20Env("VERIF_N", 400)
+	n += c20Env("VERIF_C20_NESTED", n/3) // ids >= VERIF_N: the nested family
 	if err := os.WriteFile(outPath, nil, 0o644); err != nil {
 		t.Fatal(err)
 	}
